@@ -726,10 +726,29 @@ func (c *pathBuilderVisitor) fieldHasAuthorizationRule(typeName, fieldName strin
 }
 
 func (c *pathBuilderVisitor) fieldIsChildNode(plannerIdx int) bool {
-	path := c.walker.Path.DotDelimitedString()
-	plannerPath := c.planners[plannerIdx].ParentPath()
+	// Inline fragments are not levels of the response: a field selected inside `... on T` directly
+	// below the planner's parent is a root field of the fetch as well. Comparing the raw paths made
+	// such fields look like child nodes, so they were missing from FetchInfo.RootFields and a
+	// denied field below a type condition was still requested from the subgraph.
+	path := withoutInlineFragmentSegments(c.walker.Path.DotDelimitedString())
+	plannerPath := withoutInlineFragmentSegments(c.planners[plannerIdx].ParentPath())
 	fieldPath := strings.TrimPrefix(path, plannerPath)
 	return strings.ContainsAny(fieldPath, ".")
+}
+
+// withoutInlineFragmentSegments removes the `$<ref><TypeName>` segments of a dot delimited path.
+func withoutInlineFragmentSegments(path string) string {
+	if !strings.Contains(path, "$") {
+		return path
+	}
+	segments := strings.Split(path, ".")
+	out := segments[:0]
+	for _, segment := range segments {
+		if !strings.HasPrefix(segment, "$") {
+			out = append(out, segment)
+		}
+	}
+	return strings.Join(out, ".")
 }
 
 // recordFieldPlannedOn - records the planner id on which the field was planned
